@@ -203,3 +203,9 @@ Proof.
   intros S S''. exact (E (side_okb_c_ok _ _ S) (side_okb_c_ok _ _ S'')).
 Qed.
 
+
+Lemma thm_strategy_subset_results :
+  forall (host : hostg) (p : prepared), side_okb_c host p = true ->
+    (forall T, In T (glued_of 1%N host p) -> exists T', In T' (glued_of 0%N host p) /\ obs_eq T T') /\
+    (forall T, In T (glued_of 2%N host p) -> exists T', In T' (glued_of 0%N host p) /\ obs_eq T T').
+Proof. intros host p S. exact (glued_comp_subset_all host p (side_okb_c_ok _ _ S)). Qed.
